@@ -465,6 +465,11 @@ def shape_corpus():
         ("deep_definition_chain_in_word", "cmd --k=<A>;\n<A> = <B>;\n<B> = <C>;\n<C> = v1 | v2;\n"),
         ("optional_tail_in_word", "cmd --color[=(always | never)];\n"),
         ("many1_in_word", "cmd -s<P>:<S>[,<S>]...;\n<P> = TCP | UDP;\n<S> = [^](LISTEN | CLOSED);\n"),
+        # `||` directly between words, one branch a word whose value is defined as a within-word expression itself
+        ("fallback_at_word_level_nested_word", "cmd foo || --opt=<BAR>;\n<BAR> = x(y | z);\n"),
+        ("fallback_at_word_level_nested_word_optional", "cmd [foo || --opt=<BAR>] tail;\n<BAR> = x{{{ echo c }}};\n"),
+        ("fallback_at_word_level_nested_word_repeated", "cmd (foo || --opt=<BAR> || -k<BAR>)...;\n<BAR> = x<BAZ>;\n<BAZ> = (p | q)[,(p | q)]...;\n"),
+        ("three_level_nested_words", "cmd --filter=<FILTER>;\n<FILTER> = <KEY>=<VALUE>;\n<KEY> = name | size;\n<VALUE> = (exact | glob):<PATTERN>;\n"),
         ("strace_expr", "strace -e <EXPR>;\n<EXPR> = [<qualifier>=][!]<value>[,<value>]...;\n<qualifier> = trace | read | write | fault;\n<value> = %file | file | all;\n"),
     ]
 
